@@ -40,6 +40,15 @@ Theorem C10_standardize_unit_variance : forall c sd, c <> [] -> sd <> 0 -> sd * 
   pvar opsR (map (fun v => gdiv opsR (v - avg opsR c) sd) c) = 1.
 Proof. exact standardize_col_unit_variance. Qed.
 Print Assumptions C10_standardize_unit_variance.
+Theorem C10_standardize_nocenter_unit_variance : forall c sd, c <> [] -> sd <> 0 -> sd * sd = pvar opsR c ->
+  pvar opsR (map (fun v => gdiv opsR v sd) c) = 1.
+Proof. exact standardize_nc_col_unit_variance. Qed.
+Print Assumptions C10_standardize_nocenter_unit_variance.
+Theorem C10_standardize_nocenter_entry : forall sds X i j,
+  (i < length X)%nat -> (j < length sds)%nat -> (j < length (nth i X []))%nat ->
+  ent (standardize_nc opsR sds X) i j = gdiv opsR (ent X i j) (nth j sds 0).
+Proof. exact standardize_nc_entry. Qed.
+Print Assumptions C10_standardize_nocenter_entry.
 Theorem C10_standardize_zero_variance : forall c,
   map (fun v => gdiv opsR (v - avg opsR c) 0) c = map (fun _ => 0) c.
 Proof. exact standardize_col_zero_variance. Qed.
